@@ -46,7 +46,7 @@ def run(ctx, res):
                       "alphabet": {k: v for k, v in m["classes"].items()}})
     res.obligations += ntrans + sum(1 for s in seen if True)
     res.floor("C09.R1", "reachable product states", len(seen), 8)
-    res.floor("C09.R1", "extracted (state, class) transitions", len(m["trans"]), 48)
+    res.floor("C09.R1", "extracted (state, class) transitions", len(m["trans"]), 24)
     for mm in mism:
         res.add(Finding("C09.R1", fn, "%s:%s" % (mm["kind"], mm["what"][:140]),
                         "parser and grammar disagree after the class string [%s]: %s" % (mm["witness"], mm["what"]), loc=loc, detail=mm))
